@@ -187,8 +187,8 @@ type sTransport struct {
 	doCalls  atomic.Int32
 	abort    chan struct{} // closed when the transport finds the request body closed under it (it then aborts the stream)
 	reqEOF   atomic.Bool   // the request body was read to its end
-	doDone   atomic.Bool  // Do has returned: from here on net/http's HTTP/2 transport does not watch the context while it waits on the request body
-	reqEnd   atomic.Value // string: how the request body ended, as the transport saw it
+	doDone   atomic.Bool   // Do has returned: from here on net/http's HTTP/2 transport does not watch the context while it waits on the request body
+	reqEnd   atomic.Value  // string: how the request body ended, as the transport saw it
 }
 
 func (t *sTransport) open() { t.gateOnce.Do(func() { close(t.gate) }) }
@@ -360,7 +360,7 @@ type dxCall struct {
 	yc     *yieldCtl
 	st     connect.StreamingClientConn // the (error-translating) conn under the typed stream, captured by an interceptor
 	stype  string                      // "bidi" | "client": the stream type of the call
-	hold   chan struct{} // do.exit waits here
+	hold   chan struct{}               // do.exit waits here
 	opsCoq []string
 	obs    []string
 	desc   []string
